@@ -1,4 +1,5 @@
 import OrsoVerif.Model.Distogram
+import OrsoVerif.Generated.ProfileEstExpr
 /-!
 # C14 — `count_at` and `quantile` of `orso/profiler/distogram/__init__.py`, and the profile's
 `estimate_values_below / above` (`orso/profiler/profiler.py:159-167`)
@@ -85,9 +86,10 @@ def quantile (floor : K → K) (bins : List (K × K)) (mn mx : Option K) (value 
   else if ¬ quantInRange value then none
   else quantileQ bins mn mx (floor (quantCountArg (sumCounts bins) value))
 
-/-- `ColumnProfile.estimate_values_below(point)` (profiler.py:159-162). -/
+/-- `ColumnProfile.estimate_values_below(point)` (profiler.py:159-162): the generated expression over `count_at(point)`
+and the histogram's own total — in the source as it is, `count_at(point)` itself. -/
 def estimateBelow (bins : List (K × K)) (mn mx : Option K) (point : K) : Option K :=
-  countAt bins mn mx point
+  (countAt bins mn mx point).map (fun c => Gen.ProfileEst.estimateBelowExpr (sumCounts bins) c)
 
 /-- `ColumnProfile.estimate_values_above(point)` (profiler.py:164-167): the generated expression
 over `count`, `missing`, the histogram's own total and `count_at(point)` — in the source as it
